@@ -56,6 +56,8 @@ type Stats struct {
 	FairKicks      int
 	SimSeconds     float64
 	Pairs          int
+	Timers         int
+	TimerFires     int
 	Selects        int
 	Fallbacks      int
 }
@@ -92,6 +94,9 @@ func (st *Stats) addRun(seg *Segment, race bool, out *RunOut) {
 	if seg.ClockNs > 0 {
 		st.Faults["clock_offset"]++
 	}
+	if seg.MidJumpPPM > 0 {
+		st.Faults["mid_call_clock_jump_segments"]++
+	}
 	if seg.GCPct > 0 {
 		st.Faults["forced_gc_segments"]++
 	}
@@ -122,6 +127,8 @@ func (st *Stats) addRun(seg *Segment, race bool, out *RunOut) {
 	st.Faults["preempt"] += r.Preempts
 	st.Faults["clock_jump"] += r.ClockJumps
 	st.FairKicks += r.FairKicks
+	st.Timers += r.Timers
+	st.TimerFires += r.TimerFires
 	st.Pairs += r.Pairs
 	st.Selects += r.Selects
 	st.Fallbacks += r.Fallbacks
@@ -448,6 +455,8 @@ func (ck *Checker) writeEvidence(violations int, rule string, extra map[string]a
 		"distinct_lock_acquisition_orders":    len(st.LockSigs),
 		"fairness_interventions":              st.FairKicks,
 		"channel_rendezvous_paired":           st.Pairs,
+		"timers_modelled":                     st.Timers,
+		"timer_fires":                         st.TimerFires,
 		"select_choices_made":                 st.Selects,
 		"external_channel_fallbacks":          st.Fallbacks,
 		"capacity_boundary_probes":            ck.probes,
